@@ -254,14 +254,16 @@ def ucgate_diagnosis(circ, U, cols):
             "explained_by_qiskit_ucgate": bool(wrong > 0 and err < TOL)}
 
 
-def eval_case(ctx, U, dec, a2, iso, fam):
-    """C02 on the implementation for one input; True when it holds."""
+def eval_case(ctx, U, dec, a2, iso, fam, dtype="complex"):
+    """C02 on the implementation for one input; True when it holds.  dtype = 'real': a real-valued matrix handed over as a
+    float64 array (what scipy's ortho_group or a permutation matrix built with numpy naturally is)"""
     from qclib.unitary import unitary
     n = int(np.log2(len(U)))
     case = {"function": "unitary", "decomposition": dec, "apply_a2": bool(a2), "iso": int(iso), "n": n, "family": fam,
-            "matrix": jsonable(np.asarray(U, dtype=complex))}
+            "matrix": jsonable(np.asarray(U, dtype=complex)), "dtype": dtype}
     try:
-        circ = unitary(np.array(U, dtype=complex), dec, iso, a2)
+        Uin = np.array(np.real(U), dtype=float) if dtype == "real" else np.array(U, dtype=complex)
+        circ = unitary(Uin, dec, iso, a2)
         op = Operator(circ).data
     except Exception as exc:  # noqa: BLE001 - any exception on a valid unitary is a failure of the property
         case["exception"] = f"{type(exc).__name__}: {str(exc)[:200]}"
@@ -307,6 +309,9 @@ def run_matrix(ctx, U, fam, n, with_qr, iso_list=None):
                       sample={"decomposition": dec, "apply_a2": a2, "iso": iso, "n": n, "row0": jsonable(U[0][:4])}
                       if n == 3 and iso == 1 else None)
             eval_case(ctx, U, dec, a2, iso, fam)
+            if iso in (0, 1) and float(np.abs(np.imag(U)).max()) == 0.0:
+                ctx.count(f"{dec}{'+a2' if a2 else ''}:{fam}:real_dtype", key=(dec, a2, iso, key_m, "real"), nontrivial=n >= 2, sample=None)
+                eval_case(ctx, U, dec, a2, iso, fam, dtype="real")
     if with_qr and no_zero_entries(U):
         ctx.count(f"qr:{fam}", key=("qr", key_m), nontrivial=n >= 2,
                   sample={"decomposition": "qr", "n": n, "row0": jsonable(U[0][:4])} if n == 2 else None)
@@ -369,4 +374,5 @@ def evaluate(ctx, deep):
 
 def replay(ctx, case):
     U = unjson_array(case["matrix"]).astype(complex)
-    return eval_case(ctx, U, case["decomposition"], case["apply_a2"], case["iso"], case.get("family", "replay"))
+    return eval_case(ctx, U, case["decomposition"], case["apply_a2"], case["iso"], case.get("family", "replay"),
+                     dtype=case.get("dtype", "complex"))
